@@ -252,7 +252,8 @@ def gen_c07_ops(rng, L, bc, nops):
                         'formR': rng.choice([0, 1, 2, 2]) if n > 1 else 2, 'observe': False})
         elif r < 0.70 and (L >= 2):
             i = rng.randrange(L - 1) if finite else rng.randint(-L, 2 * L)
-            ops.append({'op': 'set_svd_theta', 'i': i})
+            # update_norm is derived from r (no extra draw: the case streams of the seeds stay as they were)
+            ops.append({'op': 'set_svd_theta', 'i': i, 'update_norm': r >= 0.64})
         elif r < 0.85:
             op = {'op': 'canonical_form', 'renormalize': rng.random() < 0.5}
             if bc == 'infinite' and rng.random() < 0.4:
@@ -322,6 +323,15 @@ class FiniteRef:
             else:
                 self.norm = n
             self.canon = True
+
+    def set_svd_theta(self, op, theta_norm):
+        """set_svd_theta(i, theta := get_theta(i, 2)) stores the singular values of theta NORMALISED; |theta| is
+        multiplied into psi.norm only with update_norm=True (docstring of MPS.set_svd_theta), otherwise it is dropped:
+        the state including its norm is divided by |theta|.  |theta| = 1 in canonical form."""
+        if op.get('update_norm'):
+            self.norm = self.norm * theta_norm
+        else:
+            self.vec = self.vec / theta_norm
 
 
 class InfRef:
@@ -422,7 +432,16 @@ def check_finite(ctx, case, r, A, key, D, SI):
             method, step, [o['op'] for o in ops[:step]], msg), info, match_key=mk or 'C07:finite:%s' % method)
     last = None
     for k, o in enumerate(obs):
-        if k > 0:
+        if k > 0 and ops[k - 1]['op'] == 'set_svd_theta':
+            tn = 1.0
+            if not ref.canon:
+                # non-canonical tensors (from_Bflat does not touch a chi=1 chain): |get_theta(i, 2)| of the state
+                # right before the operation, from the stored tensors that were just compared with the dense state
+                Bs, Ss, forms = stored(A, '%s_%d' % (key, last), obs[last])
+                if all(f is not None for f in forms) and all(s_ is not None for s_ in Ss):
+                    tn = float(np.linalg.norm(G.explicit_theta(Bs, Ss, forms, ops[k - 1]['i'], 2, True)))
+            ref.set_svd_theta(ops[k - 1], tn)
+        elif k > 0:
             ref.apply(ops[k - 1], None)
         if o is None:
             # probe
@@ -678,7 +697,7 @@ def gen_segment_dense_case(rng, SI):
                      'c': [rng.choice([0.5, 2.0, -1.5, 3.0]), rng.choice([0.0, 0.0, 0.5]) if cplx_ok else 0.0]}]
         if r < 0.93:
             return [{'op': 'convert_form', 'forms': G.gen_forms(rng, n)}]
-        return [{'op': 'set_svd_theta', 'i': rng.randrange(n - 1)}]
+        return [{'op': 'set_svd_theta', 'i': rng.randrange(n - 1), 'update_norm': r >= 0.965}]
     ops = []
     for _ in range(rng.randint(2, 4)):
         for _ in range(rng.choice([1, 1, 2])):
@@ -785,7 +804,8 @@ def check_segment_dense(ctx, case, r, A, key, Dpar, SI):
             canon, modified = False, True
         elif t == 'set_svd_theta':
             want = ref
-            exact = canon      # the singular values are stored normalised: a non-normalised theta is rescaled
+            # the singular values are stored normalised: a non-normalised theta is rescaled unless update_norm=True
+            exact = canon or bool(op.get('update_norm'))
         else:                  # convert_form: state and norm unchanged
             want = ref
         if want is not None:
@@ -804,8 +824,9 @@ def check_segment_dense(ctx, case, r, A, key, Dpar, SI):
                     fail('U_L.theta.V_R (dense state of the segment in the original basis of its outer legs) after %s is not a positive multiple '
                          'of the %s state before: normalised overlap %s' % (
                              t, 'transformed' if t == 'apply_local_op' else 'unchanged', np.round(np.vdot(want, cur) / nw / nc, 8)), k)
-                if abs(nrm - prev_nrm) > 1e-9 * abs(prev_nrm) and t != 'set_svd_theta':
-                    fail('%s(renormalize=True) changed psi.norm from %r to %r' % (t, prev_nrm, nrm), k)
+                if abs(nrm - prev_nrm) > 1e-9 * abs(prev_nrm):
+                    fail('%s(%s) changed psi.norm from %r to %r' % (
+                        t, 'update_norm=False' if t == 'set_svd_theta' else 'renormalize=True', prev_nrm, nrm), k)
         ex = r['extra'][k - 1] if k - 1 < len(r['extra']) else {}
         if 'ov_error' in ex:
             fail('MPS.overlap between a copy taken before %s and the state after raises %s' % (t, ex['ov_error']), k)
@@ -1132,6 +1153,9 @@ def main(ctx):
         'C07 model: exponents in units of 1/2; numerical content of Gamma/s is modelled only for the form conversions (Model/MpsDenote.v, stream valued: dyadic tensors, singular values 4^k, trivial charges); charges, QR/SVD not modelled (oracle only); set_svd_theta and canonical_form enter the model by their specification (isometric factors)',
         'C07 oracle: dense references in the stored local basis, site tables of harness/mps_gen.py cross-checked against the site classes; infinite states compared through reduced density matrices on a three-cell window '
         '(transfer-matrix contraction of the input tensors); from_product_mps_covering with fermionic sites only for non-interleaved local states (the documentation does not define the sign convention)',
+        'C07 oracle, set_svd_theta(i, get_theta(i, 2), update_norm=True/False): the singular values are stored normalised and |theta| enters psi.norm only with '
+        'update_norm=True (docstring), so with update_norm=False on NON-normalised tensors (from_Bflat leaves a chi=1 chain as given; segment after set_B) the reference '
+        'state is divided by |theta| and psi.norm must stay; with update_norm=True state and recorded norm together must be unchanged exactly; in canonical form |theta|=1 and both coincide',
     ]
     return ctx.finish(RULE, 'theorems of coq/Props/C07.v (index arithmetic, label-truthfulness invariant over all histories, get_theta exponents) on the model; '
                       'every executed operation is replayed on the model (labels, physical and bond dimensions); the valued form model (Model/MpsDenote.v) is executed '
